@@ -12,6 +12,7 @@ import SkNet.Lemmas.KernelsHeap
 import SkNet.Lemmas.KernelsWL
 import SkNet.Lemmas.TerminateLouvainOuter
 import SkNet.Lemmas.TerminatePush
+import SkNet.Lemmas.TerminateHierarchy
 
 namespace SkNet.C17
 open SkNet SkNet.IR
@@ -289,5 +290,21 @@ example : Rank.pushLoop (α := ℚ) ⟨2, fun i => if i = 0 then [(1, 1)] else i
     rw [List.getD_eq_getElem?_getD]
     rcases v with _ | _ | v <;> simp
   · decide
+
+/-- **louvain_hierarchy_terminates.**  The `while 1` loop of `LouvainHierarchy._get_hierarchy` (model
+    `SkNet.Hier.getHierarchyLoop`; the successive results of `fit_predict` are an input of the model) ends as soon
+    as the number of clusters stops changing, and it can only strictly decrease: if every result has one label per
+    cluster of the previous one (`Chained`: what `fit_predict` on the aggregate returns), the loop needs at most as
+    many further rounds as there are clusters in the first result. -/
+theorem louvain_hierarchy_terminates (more : List (List Nat)) (items : List Hier.Tree) (labels labelsUnique : List Nat)
+    (hch : Terminate.Chained labelsUnique.length more) (hlen : labelsUnique.length < more.length) :
+    Hier.getHierarchyLoop more items labels labelsUnique ≠ none :=
+  Terminate.getHierarchyLoop_terminates more items labels labelsUnique hch hlen
+
+/-- non-vacuity: 4 nodes in 3 clusters, then 3 → 2 clusters, then 2 → 2: stops at the third round -/
+example : Terminate.Chained 3 [[0, 0, 1], [0, 1], [0, 1], [0, 0]] ∧
+    (Hier.getHierarchyLoop [[0, 0, 1], [0, 1], [0, 1], [0, 0]] ((List.range 4).map .leaf) [0, 1, 1, 2] [0, 1, 2]).isSome = true := by
+  refine ⟨?_, by decide +kernel⟩
+  refine ⟨rfl, by decide +kernel, by decide +kernel, by decide +kernel, trivial⟩
 
 end SkNet.C17
